@@ -6,6 +6,22 @@ NOTE = ("Static analysis of /repo/shexer (ast, stdlib only): decides the named s
         "configurations; it does not decide the behavioural statement as a whole (DESIGN.md section 4 lists the "
         "undecided part per property). Trusted base: third-party code summarised; name-based resolution of untyped "
         "receivers over-approximates; frozen idiom/exception tables in sa/exceptions.py with one reason per entry.")
+E2E = ("the profiling / shexing stage interpreted end to end (abstract evaluator, object mode) on three small graphs and held against ")
+EXTRA = {
+ "C01": E2E + "a transcription of the property statement: class profile and instance counts (reference relation)",
+ "C03": E2E + "a transcription of the property statement: offered cardinalities per class, property and value kind (reference relation)",
+ "C09": E2E + "itself with triples, instances and class lists in another order (permutation relation)",
+ "C14": E2E + "the run without inverse paths and the run on the reversed graph, at profile and at constraint level for four thresholds (mirror relation)",
+ "C12": E2E + "itself at four thresholds: a higher threshold only removes shapes and constraint keys (monotone relation)",
+ "C02": E2E + "itself at four thresholds and against the reversed graph (monotone and mirror relations)",
+ "C05": E2E + "the closedness clause that no shape label is a value of the instantiation property; constraint-line table of both ShExC statement serializers",
+ "C17": E2E + "the instances: stems are common prefixes of all instances, shape and constraint examples are real instances / values, for every option combination",
+ "C04": E2E + "nothing but termination without exception (no-crash relation); valid Turtle / N-Triples documents are read to the end; R-GIVEN: an empty-but-given input is not 'no input'",
+ "C16": "the capped tracker is constructed and driven through its public methods over sequences of triples against a reference model of the option (140 steps)",
+ "C15": "tracked-set pairing of the endpoint cache and namespace-dictionary orientation (who-may-flow rules)",
+ "C10": "target-classes file reader table; namespace-dictionary orientation",
+ "C20": "R-GIVEN: no copy of an optional constructor argument is tested by truthiness",
+}
 CLAIMED = {
  "C04": ("static crash-freedom clauses: optional-slot nullness (must-facts dataflow), call/attribute conformance over the "
          "resolved call graph, finite-domain propagation of validated enums into dispatchers, raise-site and implicit-None "
@@ -99,6 +115,9 @@ def main():
     for p in PROPS:
         if p in CLAIMED:
             text, ref, tech = CLAIMED[p]
+            if p in EXTRA:
+                text = text + ". " + EXTRA[p] + " (DESIGN.md 11.14)"
+                tech = tech + "; end-to-end tables: the stage interpreted whole through its public entry point (R-TABLE|profile, R-TABLE|shapes)"
             checks.append({"property_id": p, "quick_cmd": "/venv/bin/python -W ignore -m sa check %s --tier quick" % p,
                            "thorough_cmd": "/venv/bin/python -W ignore -m sa check %s --tier thorough" % p,
                            "evidence_file": "/verif/evidence/%s.json" % p,
